@@ -518,9 +518,10 @@ func (b *broker) syncUnsubscribe(subscriber *wamp.Session, msg *wamp.Unsubscribe
 	delete(sub.subscribers, subscriber)
 
 	// If no more subscribers on this subscription, delete subscription and
-	// send on_delete meta event.
+	// send on_delete meta event. A subscription that keeps event history
+	// stays, so that history is retained without subscribers.
 	var delLastSub bool
-	if len(sub.subscribers) == 0 {
+	if _, keepsHistory := b.eventHistoryStore[sub]; len(sub.subscribers) == 0 && !keepsHistory {
 		b.syncDelSubscription(sub)
 		delLastSub = true
 	}
@@ -572,8 +573,9 @@ func (b *broker) syncRemoveSession(subscriber *wamp.Session) {
 		// Remove subscribed session from subscription.
 		delete(sub.subscribers, subscriber)
 
-		// If no more subscribers on this subscription.
-		if len(sub.subscribers) == 0 {
+		// If no more subscribers on this subscription, and it does not keep
+		// event history.
+		if _, keepsHistory := b.eventHistoryStore[sub]; len(sub.subscribers) == 0 && !keepsHistory {
 			b.syncDelSubscription(sub)
 			// Fired when a subscription is deleted after the last session
 			// attached to it has been removed.
